@@ -140,3 +140,42 @@ pub fn c15_buffered_flush_ignored<W: Write>(w: &mut W) -> std::io::Result<()> {
     let _ = b.flush();
     Ok(())
 }
+
+// ---- C12: a computation made only when logging is enabled -----------------------------------------
+pub mod log {
+    pub fn max_level() -> usize {
+        3
+    }
+    pub mod __private_api {
+        pub fn log(_text: &str) {}
+    }
+}
+
+/// the record is kept only when the level is enabled: flagged
+pub fn c12_effect_under_log_level(seen: &mut Vec<String>, name: &str) {
+    if 2 <= log::max_level() {
+        seen.push(name.to_string());
+        log::__private_api::log(seen.last().map_or("", String::as_str));
+    }
+}
+
+/// the record is kept in any case, only the message depends on the level: silent
+pub fn c12_log_only_under_log_level(seen: &mut Vec<String>, name: &str) {
+    seen.push(name.to_string());
+    if 2 <= log::max_level() {
+        log::__private_api::log(name);
+    }
+}
+
+// ---- C13: a width computed at run time --------------------------------------------------------------
+/// the width follows the data: flagged (core::fmt panics above 65535)
+pub fn c13_width_follows_data(names: &[String]) -> String {
+    let width = names.iter().map(|n| n.chars().count()).max().unwrap_or(0);
+    names.iter().map(|n| format!("{n:<width$}|")).collect()
+}
+
+/// the width is cut at a constant that fits: silent
+pub fn c13_width_cut(names: &[String]) -> String {
+    let width = names.iter().map(|n| n.chars().count()).max().unwrap_or(0).min(40);
+    names.iter().map(|n| format!("{n:<width$}|")).collect()
+}
